@@ -40,7 +40,7 @@ fn snap(index: u64, c: &Cand) -> kh::SnapH {
 
 /// `exact_sqrt`: variance restricted to 0.0 (sqrt is exact and cheap; the radius varies through
 /// the delay term). Otherwise the variance is an arbitrary finite non-negative number.
-fn select_body<const N: usize>(zero_variance: bool, symbolic_weights: bool, grid: bool) {
+fn select_body<const N: usize>(zero_variance: bool, symbolic_weights: bool, grid: bool, part: u8) {
     // ---- all symbolic values first
     // exactly N candidates; smaller candidate sets are the cases where some candidates are
     // unsynchronised (those are skipped by both passes of `select`, i.e. behave as absent)
@@ -121,7 +121,7 @@ fn select_body<const N: usize>(zero_variance: bool, symbolic_weights: bool, grid
     // ---- oracle
     // (a) every returned source is one of the candidates, synchronised and not too uncertain
     let mut k = 0;
-    while k < N {
+    while part & 1 != 0 && k < N {
         if k < sel.len() {
             let idx = sel.get(k).index();
             assert!(idx >= 1 && idx <= n as u64, "returned source is a candidate");
@@ -137,7 +137,7 @@ fn select_body<const N: usize>(zero_variance: bool, symbolic_weights: bool, grid
     }
     assert!(sel.len() <= n, "not more sources than candidates");
     // (b) non-empty selection => an agreeing strict majority of the eligible sources exists
-    if !sel.is_empty() {
+    if part & 2 != 0 && !sel.is_empty() {
         let mut witness = false;
         let mut i = 0;
         while i < N {
@@ -171,7 +171,7 @@ fn select_body<const N: usize>(zero_variance: bool, symbolic_weights: bool, grid
 #[kani::unwind(7)]
 #[kani::stub(alloc::slice::stable_sort, crate::common::stable_sort_stub)]
 fn c03_select() {
-    select_body::<3>(true, false, true);
+    select_body::<3>(true, false, true, 3);
 }
 
 // thorough: up to 4 candidates
@@ -179,7 +179,7 @@ fn c03_select() {
 #[kani::unwind(9)]
 #[kani::stub(alloc::slice::stable_sort, crate::common::stable_sort_stub)]
 fn c03_select_4() {
-    select_body::<4>(true, false, true);
+    select_body::<4>(true, false, true, 3);
 }
 
 #[kani::proof]
@@ -189,5 +189,15 @@ fn c03_select_4() {
 #[kani::stub(std::vec::Vec::push, crate::common::vec_push_nogrow)]
 #[kani::stub(std::vec::Vec::reserve, crate::common::vec_reserve_nogrow)]
 fn probe_select_2() {
-    select_body::<2>(true, false, true);
+    select_body::<2>(true, false, true, 1);
+}
+
+#[kani::proof]
+#[kani::unwind(5)]
+#[kani::stub(alloc::slice::stable_sort, crate::common::stable_sort_stub)]
+#[kani::stub(f64::sqrt, crate::common::sqrt_uf)]
+#[kani::stub(std::vec::Vec::push, crate::common::vec_push_nogrow)]
+#[kani::stub(std::vec::Vec::reserve, crate::common::vec_reserve_nogrow)]
+fn probe_select_2b() {
+    select_body::<2>(true, false, true, 2);
 }
